@@ -61,13 +61,28 @@ func init() {
 			mu.Unlock()
 			atomic.AddInt64(c, 1)
 		})
-		flush := func() {
+		var fmu sync.Mutex
+		finished := false
+		flushLocked := func() {
 			mu.Lock()
 			for k, v := range counts {
 				res.Steps[k] = atomic.LoadInt64(v)
 			}
 			mu.Unlock()
 			core.WriteJSON(job.Out, res)
+		}
+		flush := func() { // periodic: never after the final write
+			fmu.Lock()
+			defer fmu.Unlock()
+			if !finished {
+				flushLocked()
+			}
+		}
+		final := func() {
+			fmu.Lock()
+			defer fmu.Unlock()
+			finished = true
+			flushLocked()
 		}
 		// write step counts periodically so that a watchdog kill still leaves evidence of (non-)progress
 		go func() {
@@ -80,7 +95,7 @@ func init() {
 		if err != nil {
 			res.Err = "load: " + err.Error()
 			res.Done = true
-			flush()
+			final()
 			return
 		}
 		loadCfg := func() *config.Config {
@@ -153,7 +168,7 @@ func init() {
 			maypanic.MayPanicAnalyzer(l.Prog, nil, true)
 		}
 		res.Done = true
-		flush()
+		final()
 	}
 }
 
